@@ -74,6 +74,8 @@ CLASSIFIERS = [("library-none-differs-from-source-none", cls_none), ("dict-remov
 
 
 def classify(h, i):
+    if isinstance(h, H.AliasHistory):
+        return None            # sharing of state between containers is not a known finding: always a violation
     for name, p in CLASSIFIERS:
         if p(h, i):
             return name
@@ -99,8 +101,8 @@ def build(ctx):
 
 def sizes(ctx):
     if ctx.tier == "quick":
-        return {"lua_hist": 900, "maxops": 30, "e2e_maxops": 30, "lua_fn": 800, "programs": 130, "trigger": 10, "fn_programs": 12}
-    return {"lua_hist": 6000, "maxops": 200, "e2e_maxops": 60, "lua_fn": 20000, "programs": 600, "trigger": 80, "fn_programs": 100}
+        return {"lua_hist": 900, "maxops": 30, "e2e_maxops": 30, "lua_fn": 800, "programs": 130, "trigger": 10, "fn_programs": 12, "lua_alias": 300, "alias": 60}
+    return {"lua_hist": 6000, "maxops": 200, "e2e_maxops": 60, "lua_fn": 20000, "programs": 600, "trigger": 80, "fn_programs": 100, "lua_alias": 4000, "alias": 500}
 
 
 # ---- generation -------------------------------------------------------------------------------------------
@@ -127,6 +129,25 @@ def gen_lua_histories(ctx, n, maxops):
                 hs.append(H.gen_keyed_history(r, k, kind=kind, kt=kt, strs=strs, preamble_only=True,
                                               geteq="any" if kind == "dict" else None, allow_collisions=True))
     return hs
+
+
+def gen_alias(ctx, n, salt, preamble_only):
+    """histories that keep two or three containers alive, one made from another by filter / map / from_list"""
+    r = vlib.rng(ctx.seed, salt)
+    return [H.gen_alias_history(r, r.randint(3, 24), preamble_only=preamble_only) for _ in range(n)]
+
+
+def model_line_or_none(h):
+    """alias histories over lists of lists are outside the value model (the elements are shared on purpose)"""
+    if isinstance(h, H.AliasHistory) and not h.in_model:
+        return None
+    return h.case_line()
+
+
+def run_model(hs):
+    lines = [model_line_or_none(h) for h in hs]
+    outs = iter(H.model_lines(_m["exe"], [l for l in lines if l is not None]))
+    return [H.decode_model(next(outs)) if l is not None else ("H", [], "UNSUP") for l in lines]
 
 
 def gen_lua_fn_cases(ctx, n):
@@ -217,15 +238,15 @@ def flat_expected(h):
     e = h.expected()
     if isinstance(h, H.ListHistory):
         return [x for pair in e for x in pair]
-    return e
+    return e            # keyed and several-container histories are flat already
 
 
 # ---- the correspondence -------------------------------------------------------------------------------------
 
 def lua_level(ctx, dist):
     sz = sizes(ctx)
-    hs = gen_lua_histories(ctx, sz["lua_hist"], sz["maxops"])
-    model = [H.decode_model(m) for m in H.model_lines(_m["exe"], [h.case_line() for h in hs])]
+    hs = gen_lua_histories(ctx, sz["lua_hist"], sz["maxops"]) + gen_alias(ctx, sz["lua_alias"], "c18-lua-alias", True)
+    model = run_model(hs)
     real = H.run_lua_bodies([h.lua_chunk() for h in hs], fuel=40000000 if ctx.tier != "quick" else 6000000)
     mism = []
     kinds, lens, ops, keyt, elemt = (collections.Counter() for _ in range(5))
@@ -237,6 +258,18 @@ def lua_level(ctx, dist):
         if isinstance(h, H.ListHistory):
             kinds["list"] += 1
             elemt[H.sy_type(h.et)] += 1
+        elif isinstance(h, H.AliasHistory):
+            kinds["several:" + "+".join(h.kinds)] += 1
+            elemt[H.sy_type(h.et)] += 1
+            if not h.in_model:
+                # lists of lists: the plain Python model (reference semantics) is the yardstick
+                exp = h.expected()
+                if o["final"] != "done" or o["trace"] != exp:
+                    i = first_diff(exp, o["trace"])
+                    mism.append({"where": "lua-level-plain", "lua": h.lua_chunk()[:1200], "at": i,
+                                 "plain": exp[i] if i is not None and i < len(exp) else "<end>",
+                                 "real": o["trace"][i] if i is not None and i < len(o["trace"]) else "<%s %s>" % (o["final"], o["msg"])})
+                continue
         else:
             kinds[h.kind] += 1
             keyt[H.sy_type(h.kt)] += 1
@@ -287,7 +320,7 @@ def lua_level(ctx, dist):
     dist["lua_level"] = {"histories": len(hs), "containers": dict(kinds), "history_length_buckets": dict(lens),
                          "operation_mix": dict(ops), "key_types": dict(keyt), "element_types": dict(elemt),
                          "histories_leaving_the_model": unsup, "helper_cases": dict(fmix), "corpus": ncorp}
-    nontrivial = len(set(h.case_line() for h in hs if len(h.ops) >= 5))
+    nontrivial = len(set(h.lua_chunk() for h in hs if len(h.ops) >= 5))
     return mism, len(hs) + len(fcases) + ncorp, nontrivial
 
 
@@ -338,9 +371,11 @@ def fn_programs(ctx, n, per=12):
 
 def e2e(ctx, dist, items=None):
     sz = sizes(ctx)
-    items = items or gen_e2e(ctx, sz["programs"], sz["e2e_maxops"], sz["trigger"])
+    if items is None:
+        items = gen_e2e(ctx, sz["programs"], sz["e2e_maxops"], sz["trigger"])
+        items += [(h, "several-containers") for h in gen_alias(ctx, sz["alias"], "c18-e2e-alias", False)]
     runs = H.compile_run([hist_program(h) for h, _ in items], fuel=60000000 if ctx.tier != "quick" else 8000000)
-    model = [H.decode_model(m) for m in H.model_lines(_m["exe"], [h.case_line() for h, _ in items])]
+    model = run_model([h for h, _ in items])
     known = open_known()
     mism, failures, hits = [], [], collections.Counter()
     ops, cont, keyt, elemt, cls_n = (collections.Counter() for _ in range(5))
@@ -351,6 +386,9 @@ def e2e(ctx, dist, items=None):
             ops[op[0]] += 1
         if isinstance(h, H.ListHistory):
             cont["list"] += 1
+            elemt[H.sy_type(h.et)] += 1
+        elif isinstance(h, H.AliasHistory):
+            cont["several:" + "+".join(h.kinds)] += 1
             elemt[H.sy_type(h.et)] += 1
         else:
             cont[h.kind] += 1
@@ -403,7 +441,11 @@ def tie(ctx):
                     "printed list after every operation compared; plus div / sign / floor / rem / __INDEX calls; (2) Sylt programs "
                     "(std bundled) that run a history and print every observation, compiled by the real compiler, run by LuaCore, "
                     "compared with the Runtime model and with Python lists / dicts / sets; every key of a keyed history is probed at "
-                    "the end; non-trivial = at least 5 operations; distinct by case text",
+                    "the end; (3) histories that keep two or three containers alive (lists of int, str, (int, str), (int, int), [int]; "
+                    "a dict or set as third), one made from another by filter (accept-all / reject-all / mixed), map (identity / "
+                    "+k), dict.from_list, set.from_list, followed by mutations of either and the printed form of every container "
+                    "after every step -- against the model (results are new containers) and against Python's own reference "
+                    "semantics; non-trivial = at least 5 operations; distinct by case text",
             "samples": samples, "distribution": dist}
 
 
@@ -414,6 +456,8 @@ def shrink_history(ctx, h, name):
         for ops in cands:
             if isinstance(h, H.ListHistory):
                 hs.append(H.ListHistory(h.et, h.init, ops).prepare())
+            elif isinstance(h, H.AliasHistory):
+                hs.append(H.AliasHistory(h.et, h.kinds, list(h.ops[:h.ninit]) + list(ops)))
             else:
                 hs.append(H.KeyedHistory(h.kind, h.kt, h.vt, ops).prepare())
         return hs
@@ -424,7 +468,8 @@ def shrink_history(ctx, h, name):
         model = [("H", [], "UNSUP")] * len(hs)
         return [judge(x, run, m)[1] is not None for x, run, m in zip(hs, runs, model)]
 
-    ops = vlib.shrink_seq(list(h.ops), fails, max_rounds=40)
+    start = list(h.ops[h.ninit:]) if isinstance(h, H.AliasHistory) else list(h.ops)     # register declarations stay
+    ops = vlib.shrink_seq(start, fails, max_rounds=40)
     return variants([ops])[0]
 
 
@@ -434,7 +479,9 @@ def search(ctx):
         if not _m.get("exe"):
             build(ctx)
         sz = sizes(ctx)
-        e2e(ctx, {}, gen_e2e(ctx, sz["programs"] * 2, sz["e2e_maxops"], sz["trigger"] * 2, salt="c18-search"))
+        items = gen_e2e(ctx, sz["programs"] * 2, sz["e2e_maxops"], sz["trigger"] * 2, salt="c18-search")
+        items += [(h, "several-containers") for h in gen_alias(ctx, sz["alias"] * 2, "c18-search-alias", False)]
+        e2e(ctx, {}, items)
         fails = ctx.c18_failures
     if not fails:
         return None
